@@ -20,6 +20,10 @@ class FeedbackRegistry:
         self._registered_feedback = {}
 
 
+#: Marks an overridden field that the class did not define itself (see Feedback.override)
+_INHERITED_FIELD = object()
+
+
 class Feedback:
     """
     A class for storing raw feedback.
@@ -469,19 +473,25 @@ class Feedback:
 
     @classmethod
     def override(cls, report=MAIN_REPORT, **fields):
-        if '_override_backups' not in cls.__dict__:
+        if cls.__dict__.get('_override_backups') is None:
             # Each class needs its own backups; an inherited dictionary would be shared
             cls._override_backups = {}
         for field, new_value in fields.items():
             if field not in cls._override_backups:
-                cls._override_backups[field] = getattr(cls, field)
+                getattr(cls, field)  # unknown fields still raise AttributeError
+                # Only remember what this class defines itself: an inherited value belongs
+                # to the parent class (which may itself be overridden right now)
+                cls._override_backups[field] = cls.__dict__.get(field, _INHERITED_FIELD)
             setattr(cls, field, new_value)
         report.override_feedback(cls)
 
     @classmethod
     def _restore_overrides(cls):
         for field, old_value in cls._override_backups.items():
-            setattr(cls, field, old_value)
+            if old_value is _INHERITED_FIELD:
+                delattr(cls, field)
+            else:
+                setattr(cls, field, old_value)
         cls._override_backups.clear()
 
 
